@@ -208,14 +208,17 @@ class C15(Cfg):
                   "different pasts agree), stored values read back unchanged through the short id and new fields read default/null, a refused version returns the "
                   "model unchanged (also at instance level), re-applying the accepted text changes nothing and an instance restarts on its own model. These are "
                   "proved for Defects.none = Defects.asImplemented: the two deviations this check found (ids of several new fields in hash-map order; refused version "
-                  "partially applied and reported Ok) were confirmed on the real code and fixed in /repo (e35fd01, fb21964). C15_breaks_hashOrderIds and "
-                  "C15_breaks_partialRefusal are decide-checked witnesses of what either defect does (the replays in corpus/C15 show the same on the real code when a "
+                  "partially applied and reported Ok; a version may remove the default old rows rely on) were confirmed on the real code and fixed in /repo (e35fd01, fb21964, "
+                  "9cb7f9f). The model also carries the reverse short-name table (complete along every history: C15_reverse_table_complete) and the conformance predicate a peer "
+                  "applies to a row it receives (rows written under an older version keep conforming: C15_old_rows_conform). C15_breaks_hashOrderIds, C15_breaks_partialRefusal and "
+                  "C15_breaks_defaultDropAccepted are decide-checked witnesses of what each defect does (the replays in corpus/C15 show the same on the real code when a "
                   "fix is reverted); C15_partial covers the pre-fix code under the guard 'accepted and at most one new field per existing entity'. The hard-coded "
                   "*_SHORT constants of system_entities.rs are proved equal to the positional ids of SYSTEM_DATA_MODEL on a table regenerated from the source on every run. "
                   "Tie: the real DataModel::update/update_system and real GraphDatabaseService instances (start, run-time update through the actor message and "
                   "through the public API, restart on the same text, rows written and read back) are run on generated version sequences (valid edits, every kind of "
                   "invalid edit, versions valid for some entities and invalid for others, versions built on refused ones); the serialised id tables, error classes and "
-                  "query results are compared line by line with the compiled model; an independent oracle checks the property on the implementation's observations alone.")
+                  "query results, the reverse table and the conformance of every stored row to the live model (the check GraphDatabase::add_nodes applies to a peer's row) are compared "
+                  "line by line with the compiled model; an independent oracle checks the property on the implementation's observations alone. Wide entities (short ids crossing 99/100) are part of the stream.")
     level_note = ("Trusted: Lean kernel (+propext, Classical.choice, Quot.sound), the hand-written model and harness, the AST->text renderer, T6 (regex-level). "
                   "The iteration order of Rust hash maps is an INPUT of the model (observed by the harness: items modified before a failure, ids given to new fields); "
                   "the model cannot predict RandomState and the theorems for Defects.none quantify over every order. Not modelled: the pest grammar and the walk over "
@@ -246,7 +249,7 @@ class C15(Cfg):
 
     def streams(self, tier, seed, work, dv):
         res = []
-        plan = [("dm", 1200, 1), ("db", 45, 3)] if tier == "quick" else [("dm", 40000, 1), ("db", 200, 10)]
+        plan = [("dm", 1000, 1), ("db", 40, 3)] if tier == "quick" else [("dm", 40000, 1), ("db", 200, 10)]
         for kind, n, parts in plan:
             for p in range(parts):
                 path = os.path.join(work, "%s_%d.ops" % (kind, p))
